@@ -29,8 +29,14 @@ package conversion
 //@   ensures[C20] ok <==> (2 <= rkind(w) && rkind(w) <= 11)
 //@   ensures[C20] ok && rkind(w) <= 6 ==> i == w.rval
 //@   ensures[C20] ok && rkind(w) >= 7 && w.rval <= 9223372036854775807 ==> i == w.rval
+//@   ensures[C20] ok && rkind(w) >= 7 && w.rval > 9223372036854775807 ==> i == w.rval - 18446744073709551616
 //@   ensures[C20] ok && rkind(w) >= 7 ==> 0 <= w.rval && w.rval <= kmax(rkind(w)) && (w.rval > 9223372036854775807 ==> i < 0)
 //@   ensures[C20] ok && rkind(w) <= 6 ==> kmin(rkind(w)) <= i && i <= kmax(rkind(w))
+
+//@ func isUnsigned(w reflect.Value) (result bool)
+//@   tags C20
+//@   pure
+//@   ensures[C20] result <==> (7 <= rkind(w) && rkind(w) <= 11)
 
 //@ func convertFrom(v reflect.Value, w reflect.Value) (err error)
 //@   tags C20
@@ -44,7 +50,9 @@ package conversion
 //@   ensures[C20] err == nil ==> rkind(rbase(v)) == 1 || (2 <= rkind(rbase(v)) && rkind(rbase(v)) <= 11) || rkind(rbase(v)) == 13 || rkind(rbase(v)) == 14 || rkind(rbase(v)) == 21 || rkind(rbase(v)) == 23 || rkind(rbase(v)) == 24 || rkind(rbase(v)) == 25
 //@   ensures[C20] err == nil && rkind(rbase(v)) == 1 ==> rkind(rbase(w)) == 1 && ((rbase(v).rval != 0) <==> (old(rbase(w).rval) != 0))
 //@   ensures[C20] err == nil && rkind(rbase(v)) == 24 ==> rkind(rbase(w)) == 24 && rbase(v).rval == old(rbase(w).rval)
-//@   ensures[C20] err == nil && 2 <= rkind(rbase(v)) && rkind(rbase(v)) <= 11 ==> 2 <= rkind(rbase(w)) && rkind(rbase(w)) <= 11 && rbase(v).rval == old(rbase(w).rval)
+//@   ensures[C20] err == nil && 2 <= rkind(rbase(v)) && rkind(rbase(v)) <= 11 ==> 2 <= rkind(rbase(w)) && rkind(rbase(w)) <= 11
+//@   ensures[C20] err == nil && 2 <= rkind(rbase(v)) && rkind(rbase(v)) <= 6 ==> rbase(v).rval == old(rbase(w).rval)
+//@   ensures[C20] err == nil && 7 <= rkind(rbase(v)) && rkind(rbase(v)) <= 11 ==> rbase(v).rval == old(rbase(w).rval)
 //@   ensures[C20] err == nil && (rkind(rbase(v)) == 13 || rkind(rbase(v)) == 14) ==> (rkind(rbase(w)) == 13 || rkind(rbase(w)) == 14) && (rkind(rbase(v)) == 14 || rkind(rbase(w)) == 13 ==> rbase(v).rval == old(rbase(w).rval))
 //@   ensures[C20] err == nil && rkind(rbase(v)) == 23 ==> rkind(rbase(w)) == 23
 //@   ensures[C20] err == nil && rkind(rbase(v)) == 23 ==> rbase(v).rlen == old(rbase(w).rlen)
